@@ -459,3 +459,38 @@ Proof.
   change (length (a :: bodies)) with (S (length bodies)).
   rewrite parse_one by auto. rewrite IHbodies; auto.
 Qed.
+
+(* ---------- address rotation ---------- *)
+Lemma picks_nth : forall k p j,
+  (ap_head p < length (ap_addrs p))%nat -> (j < k)%nat ->
+  nth j (picks k p) 0 = nth ((ap_head p + j) mod length (ap_addrs p)) (ap_addrs p) 0.
+Proof.
+  induction k; intros p j Hh Hj. { lia. }
+  simpl. unfold pick. destruct (ap_addrs p) eqn:Ea. { simpl in Hh; lia. }
+  rewrite <- Ea in *. 
+  assert (Hn : length (ap_addrs p) <> 0%nat) by lia.
+  destruct j.
+  - simpl. rewrite Nat.add_0_r, Nat.mod_small by lia. reflexivity.
+  - simpl. rewrite IHk; simpl.
+    + rewrite Nat.add_mod_idemp_l by lia. f_equal. f_equal. lia.
+    + apply Nat.mod_upper_bound; lia.
+    + lia.
+Qed.
+
+(* C31 "plus reconnection time": successive reconnect attempts of a sender rotate over its whole address pool -
+   every address (in particular a live one) is tried within len(pool) attempts, whatever the starting point *)
+Theorem rotation_visits_every_address : forall p i,
+  (ap_head p < length (ap_addrs p))%nat -> (i < length (ap_addrs p))%nat ->
+  exists j, (j < length (ap_addrs p))%nat /\
+            nth j (picks (length (ap_addrs p)) p) 0 = nth i (ap_addrs p) 0.
+Proof.
+  intros p i Hh Hi. set (n := length (ap_addrs p)) in *.
+  exists ((i + n - ap_head p) mod n)%nat.
+  assert (Hn : n <> 0%nat) by lia.
+  split. { apply Nat.mod_upper_bound; lia. }
+  rewrite picks_nth; auto.
+  - fold n. rewrite Nat.add_mod_idemp_r by lia.
+    replace (ap_head p + (i + n - ap_head p))%nat with (i + 1 * n)%nat by lia.
+    rewrite Nat.mod_add by lia. rewrite Nat.mod_small by lia. reflexivity.
+  - apply Nat.mod_upper_bound; lia.
+Qed.
